@@ -202,6 +202,7 @@ type StaticCfg struct {
 	IDStyle                                                                                                  int  // 0 prefixed (s0, r1), 1 numeric (101, 102), 2 dictionary words incl. pairs that collide under common 32-bit hashes
 	AgencyIDCellBlank                                                                                        bool // with BlankAgencyID: the single agency's own agency_id cell is empty
 	DistinctText                                                                                             bool // free-text cells that usually repeat (stop_headsign) are all different
+	ShortTimes                                                                                               bool // times before 10:00:00 spelled without the leading zero (7 bytes)
 	WideZones                                                                                                bool // agency time zones from the whole IANA list instead of four common ones
 	SpecExtras                                                                                               int  // members the GTFS reference defines and the library does not read (feed_info.txt, ...)
 }
@@ -251,6 +252,7 @@ func DrawStaticCfg(t *sim.T, big bool) StaticCfg {
 		c.IDStyle = 3 + t.Choose(len(idSeps)) // ids that contain a separator character, see sepID
 	}
 	c.WideZones = t.Chance(1, 4)
+	c.ShortTimes = t.Chance(1, 3)
 	if t.Chance(1, 6) {
 		c.SpecExtras = t.Range(1, 3)
 	}
@@ -371,6 +373,13 @@ func finishTable(t *sim.T, c StaticCfg, name string, cols []colSpec, rows [][]st
 		tb.Rows = append(tb.Rows, out)
 	}
 	return tb
+}
+
+func (c StaticCfg) spellTime(secs int) string {
+	if c.ShortTimes && secs < 36000 {
+		return fmt.Sprintf("%d:%02d:%02d", secs/3600, (secs/60)%60, secs%60)
+	}
+	return gtfsTime(secs)
 }
 
 func gtfsTime(secs int) string {
@@ -616,7 +625,7 @@ func GenStatic(t *sim.T, c StaticCfg) *StaticModel {
 				if c.DistinctText {
 					hs = fmt.Sprintf("hs %d/%d", i, k)
 				}
-				rows = append(rows, []string{trip, gtfsTime(a), gtfsTime(a + 30), m.StopIDs[t.Choose(len(m.StopIDs))], fmt.Sprint((k + 1) * 5), hs, fmt.Sprint(t.Choose(4)), fmt.Sprint(t.Choose(4)), fmt.Sprint(t.Choose(4)), fmt.Sprint(t.Choose(4)), fmt.Sprintf("%.1f", float64(k)*1.25), fmt.Sprint(t.Choose(2))})
+				rows = append(rows, []string{trip, c.spellTime(a), c.spellTime(a + 30), m.StopIDs[t.Choose(len(m.StopIDs))], fmt.Sprint((k + 1) * 5), hs, fmt.Sprint(t.Choose(4)), fmt.Sprint(t.Choose(4)), fmt.Sprint(t.Choose(4)), fmt.Sprint(t.Choose(4)), fmt.Sprintf("%.1f", float64(k)*1.25), fmt.Sprint(t.Choose(2))})
 			}
 		}
 		if c.Interleave {
